@@ -20,12 +20,13 @@ def isWord (c : UInt8) : Bool := isDigit c || (65 ≤ c && c ≤ 90) || (97 ≤ 
 /-- `^\d+$` -/
 def intRe (s : Bytes) : Bool := !s.isEmpty && s.all isDigit
 
-/-- `^\d+\.\d+$` -/
-def floatRe (s : Bytes) : Bool :=
-  let ip := s.takeWhile isDigit
-  match s.dropWhile isDigit with
-  | 46 :: fp => !ip.isEmpty && !fp.isEmpty && fp.all isDigit
+/-- what must follow the integer part: `.` and one or more digits up to the end -/
+def floatTail (ipEmpty : Bool) : Bytes → Bool
+  | 46 :: fp => !ipEmpty && !fp.isEmpty && fp.all isDigit
   | _ => false
+
+/-- `^\d+\.\d+$` -/
+def floatRe (s : Bytes) : Bool := floatTail (s.takeWhile isDigit).isEmpty (s.dropWhile isDigit)
 
 /-- `^1[3-9]\d{9}$` -/
 def phoneRe (s : Bytes) : Bool :=
